@@ -7,6 +7,7 @@ import (
 	"os"
 	"os/exec"
 	"path/filepath"
+	"regexp"
 	"sort"
 	"strings"
 	"testing"
@@ -32,7 +33,125 @@ func loadSchema(b []byte) (*schemaDoc, error) {
 }
 
 var knownSchemaKeywords = map[string]bool{"$schema": true, "$id": true, "$ref": true, "$defs": true, "properties": true, "additionalProperties": true,
-	"type": true, "enum": true, "items": true, "required": true, "default": true, "examples": true, "format": true, "title": true, "description": true}
+	"type": true, "enum": true, "items": true, "required": true, "default": true, "examples": true, "format": true, "title": true, "description": true,
+	"const": true, "if": true, "then": true, "else": true, "allOf": true, "anyOf": true, "oneOf": true, "not": true, "pattern": true,
+	"minLength": true, "maxLength": true, "minItems": true, "maxItems": true, "minimum": true, "maximum": true, "minProperties": true, "maxProperties": true,
+	"patternProperties": true, "$comment": true, "deprecated": true, "readOnly": true, "writeOnly": true}
+
+func (s *schemaDoc) ok(sch map[string]any, v any) bool {
+	var errs []string
+	s.validate(sch, v, "$", &errs)
+	return len(errs) == 0
+}
+
+func toFloat(v any) (float64, bool) {
+	switch x := v.(type) {
+	case int:
+		return float64(x), true
+	case int64:
+		return float64(x), true
+	case uint64:
+		return float64(x), true
+	case float64:
+		return x, true
+	}
+	return 0, false
+}
+
+// validateApplicators handles the composition and assertion keywords beyond the core subset.
+func (s *schemaDoc) validateApplicators(sch map[string]any, v any, path string, errs *[]string) {
+	if c, ok := sch["const"]; ok {
+		if fmt.Sprint(c) != fmt.Sprint(v) || jsonType(c) != jsonType(v) {
+			*errs = append(*errs, fmt.Sprintf("%s: value %v is not the constant %v", path, v, c))
+		}
+	}
+	if cond, ok := sch["if"].(map[string]any); ok {
+		branch := "else"
+		if s.ok(cond, v) {
+			branch = "then"
+		}
+		if b, ok := sch[branch].(map[string]any); ok {
+			s.validate(b, v, path+"("+branch+")", errs)
+		}
+	}
+	for _, sub := range asSchemas(sch["allOf"]) {
+		s.validate(sub, v, path, errs)
+	}
+	if subs := asSchemas(sch["anyOf"]); len(subs) > 0 {
+		n := 0
+		for _, sub := range subs {
+			if s.ok(sub, v) {
+				n++
+			}
+		}
+		if n == 0 {
+			*errs = append(*errs, fmt.Sprintf("%s: matches none of the anyOf branches", path))
+		}
+	}
+	if subs := asSchemas(sch["oneOf"]); len(subs) > 0 {
+		n := 0
+		for _, sub := range subs {
+			if s.ok(sub, v) {
+				n++
+			}
+		}
+		if n != 1 {
+			*errs = append(*errs, fmt.Sprintf("%s: matches %d of the oneOf branches", path, n))
+		}
+	}
+	if sub, ok := sch["not"].(map[string]any); ok && s.ok(sub, v) {
+		*errs = append(*errs, fmt.Sprintf("%s: matches the schema under not", path))
+	}
+	if str, ok := v.(string); ok {
+		if p, ok := sch["pattern"].(string); ok {
+			if re, err := regexp.Compile(p); err == nil && !re.MatchString(str) {
+				*errs = append(*errs, fmt.Sprintf("%s: %q does not match pattern %s", path, str, p))
+			}
+		}
+		if n, ok := toFloat(sch["minLength"]); ok && float64(len([]rune(str))) < n {
+			*errs = append(*errs, fmt.Sprintf("%s: shorter than minLength", path))
+		}
+		if n, ok := toFloat(sch["maxLength"]); ok && float64(len([]rune(str))) > n {
+			*errs = append(*errs, fmt.Sprintf("%s: longer than maxLength", path))
+		}
+	}
+	if l, ok := v.([]any); ok {
+		if n, ok := toFloat(sch["minItems"]); ok && float64(len(l)) < n {
+			*errs = append(*errs, fmt.Sprintf("%s: fewer than minItems", path))
+		}
+		if n, ok := toFloat(sch["maxItems"]); ok && float64(len(l)) > n {
+			*errs = append(*errs, fmt.Sprintf("%s: more than maxItems", path))
+		}
+	}
+	if m, ok := v.(map[string]any); ok {
+		if n, ok := toFloat(sch["minProperties"]); ok && float64(len(m)) < n {
+			*errs = append(*errs, fmt.Sprintf("%s: fewer than minProperties", path))
+		}
+		if n, ok := toFloat(sch["maxProperties"]); ok && float64(len(m)) > n {
+			*errs = append(*errs, fmt.Sprintf("%s: more than maxProperties", path))
+		}
+	}
+	if f, ok := toFloat(v); ok {
+		if n, ok := toFloat(sch["minimum"]); ok && f < n {
+			*errs = append(*errs, fmt.Sprintf("%s: below minimum", path))
+		}
+		if n, ok := toFloat(sch["maximum"]); ok && f > n {
+			*errs = append(*errs, fmt.Sprintf("%s: above maximum", path))
+		}
+	}
+}
+
+func asSchemas(v any) []map[string]any {
+	var out []map[string]any
+	if l, ok := v.([]any); ok {
+		for _, e := range l {
+			if m, ok := e.(map[string]any); ok {
+				out = append(out, m)
+			}
+		}
+	}
+	return out
+}
 
 func (s *schemaDoc) resolve(sch map[string]any) map[string]any {
 	for {
@@ -98,9 +217,11 @@ func (s *schemaDoc) validate(sch map[string]any, v any, path string, errs *[]str
 			*errs = append(*errs, fmt.Sprintf("%s: value %q is not in enum %v", path, v, en))
 		}
 	}
+	s.validateApplicators(sch, v, path, errs)
 	switch x := v.(type) {
 	case map[string]any:
 		props, _ := sch["properties"].(map[string]any)
+		patProps, _ := sch["patternProperties"].(map[string]any)
 		for _, r := range asStrings(sch["required"]) {
 			if _, ok := x[r]; !ok {
 				*errs = append(*errs, fmt.Sprintf("%s: required key %q missing", path, r))
@@ -109,6 +230,18 @@ func (s *schemaDoc) validate(sch map[string]any, v any, path string, errs *[]str
 		for _, k := range sortedKeys(x) {
 			if ps, ok := props[k].(map[string]any); ok {
 				s.validate(ps, x[k], path+"."+k, errs)
+				continue
+			}
+			matched := false
+			for pat, ps := range patProps {
+				if re, err := regexp.Compile(pat); err == nil && re.MatchString(k) {
+					if pm, ok := ps.(map[string]any); ok {
+						s.validate(pm, x[k], path+"."+k, errs)
+					}
+					matched = true
+				}
+			}
+			if matched {
 				continue
 			}
 			switch ap := sch["additionalProperties"].(type) {
